@@ -629,7 +629,7 @@ pub fn exch_responder(g: &F12, de_b: &Pt<Fp2>, id_a: &[u8], id_b: &[u8], r_b: &B
     if ra_pt.is_none() || !pr.g1.on_curve(ra_pt) {
         return None;
     }
-    let g1 = pairing(ra_pt, de_b);
+    let g1 = pairing_cached(ra_pt, de_b);
     let g2 = g.pow(r_b);
     let g3 = g1.pow(r_b);
     Some(kdf(&[id_a, id_b, &g1_bytes(ra_pt)?[..], &g1_bytes(rb_pt)?[..], &g1.bytes()[..], &g2.bytes()[..], &g3.bytes()[..]].concat(), klen))
